@@ -114,3 +114,30 @@ Example C08_examples :
   (exists es, parse_source (bs "@if(x)a") = ParseErrors es) /\
   (exists es, parse_source (bs "{{ 1 # 2 }}") = ParseErrors es).
 Proof. repeat split; vm_compute; eexists; reflexivity. Qed.
+
+(* ---- an unterminated block (Proofs/OpenBlocks.v): the tokens of any complete statements, then an @if or
+   @each whose @end is missing - holding any complete statements and, nested to any depth, a further open
+   block - then the end of the input, are always rejected; with the fuel parse_tokens really allots *)
+From Coq Require Import Lia.
+From TW Require Import Pratt StmtParse OpenBlocks.
+
+Theorem C08_unterminated_block_is_rejected pre o eof :
+  wf_ss pre -> wf_o o -> ttype eof = T_EOF ->
+  exists es, parse_tokens (flats pre ++ flat_o o ++ [eof])%list = ParseErrors es /\ es <> [].
+Proof. exact (unterminated_block_is_rejected pre o eof). Qed.
+Print Assumptions C08_unterminated_block_is_rejected.
+
+(* non-vacuity: the lexed prefix  x@if(a)y@each(v in xs)z  of a valid template is such a token list *)
+Example C08_lexed_prefix_is_an_open_block :
+  exists pre o eof,
+    lex_all (bs "x@if(a)y@each(v in xs)z") = Some (flats pre ++ flat_o o ++ [eof])%list /\
+    wf_ss pre /\ wf_o o /\ ttype eof = T_EOF.
+Proof.
+  destruct (lex_all (bs "x@if(a)y@each(v in xs)z")) as [ts|] eqn:E; [|vm_compute in E; discriminate E].
+  vm_compute in E. injection E as <-.
+  match goal with |- exists pre o eof, Some (?x :: ?kw :: ?lp :: ?a :: ?rp :: ?y :: ?ke :: ?elp :: ?v :: ?inn :: ?xs :: ?erp :: ?z :: ?eoft :: nil) = _ /\ _ =>
+    exists [TText x], (OIf kw lp rp (CAtom a) [TText y] (Some (OEach ke elp v inn erp (CAtom xs) [TText z] None))), eoft
+  end.
+  split; [reflexivity|].
+  cbn [wf_ss wf_s wf_o wf]. cbn [ttype]. repeat split; try reflexivity; try discriminate.
+Qed.
